@@ -274,6 +274,11 @@ func runC15(w *World, pi interface{}) {
 			nFill := 6
 			if p.Transport == "inproc" {
 				nFill = p.Cap % 3 // exactly the queue size: the next send has no room
+			} else if p.Stage >= 2 {
+				// no filling sends: the measured send is itself larger than the peer's window and is
+				// the first write that blocks (a filling send given up in the middle of its write
+				// leaves some transports refusing the next write at once, which measures nothing)
+				nFill = 0
 			}
 			for i := 0; i < nFill; i++ {
 				i := i
